@@ -527,40 +527,41 @@ Proof.
   exists lb'. rewrite A. split; [reflexivity|]. rewrite B. replace (b + (e - b))%nat with e by lia. reflexivity.
 Qed.
 
-(* an lbuf_edit oracle: called with a pointer to the start of a block (younger than the caller's memory) that holds a text and
-   its terminator, it returns, relates the memories by E, and leaves the blocks younger than the caller's memory alone *)
-Definition edit_oracle (ext : nat -> list val -> mem -> res (val * mem)) (lb : nat) (lo beg en : Z) (n0 : nat)
-                       (E : bytes -> mem -> mem -> Prop) : Prop :=
-  forall (m1 : mem) tb (t : bytes) (rest : block), (n0 + 2 <= tb)%nat -> @nth_error block m1 tb = Some (map VInt (zb t) ++ VInt 0 :: rest) ->
-    exists u m2, ext X_lbuf_edit [VPtr lb lo; VPtr tb 0; VInt beg; VInt en] m1 = Ok (u, m2) /\ E t m1 m2 /\
+(* an lbuf_edit oracle for the text t: called with a pointer to the start of a block (younger than the caller's memory) that
+   holds t and its terminator, it returns, relates the memories by E, and leaves the blocks younger than the caller's memory alone *)
+Definition edit_oracle (ext : nat -> list val -> mem -> res (val * mem)) (lb : nat) (lo beg en : Z) (n0 : nat) (t : bytes)
+                       (E : mem -> mem -> Prop) : Prop :=
+  forall (m1 : mem) tb (rest : block), (n0 + 2 <= tb)%nat -> @nth_error block m1 tb = Some (map VInt (zb t) ++ VInt 0 :: rest) ->
+    exists u m2, ext X_lbuf_edit [VPtr lb lo; VPtr tb 0; VInt beg; VInt en] m1 = Ok (u, m2) /\ E m1 m2 /\
       forall k, (n0 <= k < length m1)%nat -> nth_error m2 k = nth_error m1 k.
 
 (* lbuf_rd on the C text, for every read schedule and every lbuf_edit oracle *)
 Theorem tr_lbuf_rd ext rs rl m0 lb lo fd beg en s lg d fuel E :
   read_oracle ext rs rl -> rworld_at rs rl m0 s lg -> Forall (rout_ok 1024) s ->
   Z.of_nat (length (concat (rd_chunks s))) <= 500000000 -> (length s + 2 <= fuel)%nat ->
-  edit_oracle ext lb lo beg en (length m0) E ->
   let t := concat (rd_chunks s) in
+  (rd_ok s = true -> edit_oracle ext lb lo beg en (length m0) t E) ->
   let old m := forall k, (k < length m0)%nat -> k <> rs -> k <> rl -> nth_error m k = nth_error m0 k in
   if rd_ok s then
     exists m1 m2 tb rest,
       callx ext cprog fuel (S (S (S d))) F_lbuf_rd [VPtr lb lo; VInt fd; VInt beg; VInt en] m0
       = Ok (VInt 0, upd (upd m2 tb []) (S (length m0)) []) /\
-      nth_error m1 tb = Some (map VInt (zb t) ++ VInt 0 :: rest) /\ (length m0 + 2 <= tb)%nat /\
-      rworld_at rs rl m1 (rd_rest s) (lg ++ rd_log fd s) /\ old m1 /\ E t m1 m2
+      nth_error m1 tb = Some (map VInt (zb t) ++ VInt 0 :: rest) /\ (length m0 + 2 <= tb)%nat /\ (length m0 + 2 <= length m1)%nat /\
+      rworld_at rs rl m1 (rd_rest s) (lg ++ rd_log fd s) /\ old m1 /\ E m1 m2 /\
+      (forall k, (length m0 <= k < length m1)%nat -> nth_error m2 k = nth_error m1 k)
   else
     exists mf,
       callx ext cprog fuel (S (S (S d))) F_lbuf_rd [VPtr lb lo; VInt fd; VInt beg; VInt en] m0 = Ok (VInt 1, mf) /\
       rworld_at rs rl mf (rd_rest s) (lg ++ rd_log fd s) /\ old mf.
 Proof.
-  intros (K1 & K2) Hw Hok Hsz Hf HE t old.
+  intros (K1 & K2) Hw Hok Hsz Hf t HE old.
   assert (Hrs : (rs < length m0)%nat) by (apply nth_error_Some; rewrite (proj1 Hw); discriminate).
   assert (Hrl : (rl < length m0)%nat) by (apply nth_error_Some; rewrite (proj2 Hw); discriminate).
   destruct (rd_ok s) eqn:Eok.
   - destruct (tr_lbuf_rd_ok_sec ext rs rl K1 K2 m0 lb lo fd beg en d fuel Hrs Hrl s lg Hw Hok Eok Hsz Hf)
       as (m1 & tb & rest & A1 & A2 & A3 & (sblk & A4 & A4') & A5 & A6 & A7).
-    destruct (HE m1 tb t rest A2 A1) as (u & m2 & E2 & HE2 & Keep).
-    exists m1, m2, tb, rest. split; [|split; [exact A1|split; [exact A2|split; [exact A5|split; [exact A6|exact HE2]]]]].
+    destruct (HE eq_refl m1 tb rest A2 A1) as (u & m2 & E2 & HE2 & Keep).
+    exists m1, m2, tb, rest. split; [|split; [exact A1|split; [exact A2|split; [exact A3|split; [exact A5|split; [exact A6|split; [exact HE2|exact Keep]]]]]]].
     apply (A7 u m2 E2); apply Keep.
     + split; [lia|]. exact (nth_some_lt _ _ _ A4).
     + split; [lia|]. exact (nth_some_lt _ _ _ A1).
@@ -601,10 +602,10 @@ Definition logged (el : nat) (b e : Z) (t : bytes) (m1 m2 : mem) : Prop :=
        | Some lblk => upd m1 el (lblk ++ [VInt 9; VInt b; VInt e] ++ upto0 (map VInt (zb t) ++ [VInt 0]))
        | None => m1
        end.
-Lemma rsys_edit_oracle rs rl el lb lo beg en n0 : (el < n0)%nat ->
-  edit_oracle (rsys rs rl el) lb lo beg en n0 (logged el beg en).
+Lemma rsys_edit_oracle rs rl el lb lo beg en n0 t : (el < n0)%nat ->
+  edit_oracle (rsys rs rl el) lb lo beg en n0 t (logged el beg en t).
 Proof.
-  intros Hel m1 tb t rest Htb Hblk. unfold rsys.
+  intros Hel m1 tb rest Htb Hblk. unfold rsys.
   replace (Nat.eqb X_lbuf_edit X_read) with false by (vm_compute; reflexivity). rewrite Nat.eqb_refl.
   unfold edit_log. rewrite Hblk. change (Z.to_nat 0) with 0%nat. cbn [skipn]. rewrite upto0_text. unfold logged.
   destruct (nth_error m1 el) as [lblk|] eqn:El; eexists; eexists; (split; [reflexivity|]); (split; [reflexivity|]).
